@@ -23,7 +23,8 @@ def profile(prop, tier):
          "strand_max": 80 if q else 240, "heaps": [0.5, 1, 10, 1000], "fault_weights": {}}
     if prop == "C04":
         p.update(populations=[("mask", 5), ("filter", 3), ("mask-t1", 3)], clients=["designer", "writer"],
-                 msg_max=96 if q else 512, max_ops=(20, 50))
+                 msg_max=96 if q else 512, max_ops=(20, 50),
+                 k_weights=[(1, 2), (2, 4), (3, 4), (4, 2), (5, 1), (6, 0.2 if q else 1), (7, 0.13 if q else 0.7)])
     elif prop == "C06":
         p.update(reader_mode="decode")
     elif prop == "C07":
@@ -76,7 +77,15 @@ class Config(object):
             self.strand_max = 120
             self.fault_weights = [("RANDOM", 6), ("MULTI", 2), ("LASTWIN", 2), ("TRUNC", 1), ("NONE", 1)]
             self.meta = []
-        self.long_strands = prof["prop"] in ("C08", "C09", "C10", "C06") and rng.random() < 0.05 and not self.marathon
+        self.ultra = prof["prop"] in ("C09", "C10") and not self.marathon and rng.random() < 1.0 / 1200
+        if self.ultra:
+            # a one-way cycle (every error site has exactly one repair, so the candidate product stays 1) read with
+            # more than a thousand separated substitutions
+            self.k, self.n_designs, self.max_ops = rng.choice([2, 3]), 1, rng.randint(6, 12)
+            self.populations = [("cycle", 1)]
+            self.fault_weights, self.meta = [("ULTRA", 1)], []
+        self.long_strands = prof["prop"] in ("C08", "C09", "C10", "C06") and rng.random() < 0.05 and not self.marathon \
+            and not self.ultra
         if self.long_strands:
             if "MASSIVE" in self._prof_faults and "MASSIVE" not in [f for f, _ in self.fault_weights]:
                 self.fault_weights.append(("MASSIVE", 3))
@@ -89,7 +98,7 @@ class Config(object):
                 "meta": self.meta, "msg_max": self.msg_max, "strand_max": self.strand_max,
                 "fast_share": self.fast_share, "table_share": self.table_share, "check_share": self.check_share,
                 "lag_pref": self.lag_pref, "mixed_k": self.mixed_k, "long_strands": self.long_strands,
-                "marathon": self.marathon}
+                "marathon": self.marathon, "ultra": self.ultra}
 
 
 class Molecule(object):
@@ -126,8 +135,8 @@ class Designer(Client):
     def step(self):
         sim, rng, cfg = self.sim, self.rng, self.sim.cfg
         made = len(sim.world.designs)
-        limit = cfg.n_designs + (8 if sim.prop == "C04" else 3)
-        if self.count >= limit or (made >= cfg.n_designs and rng.random() < (0.6 if sim.prop == "C04" else 0.9)):
+        limit = cfg.n_designs + (8 if sim.prop == "C04" else 5 if sim.prop in ("C06", "C09", "C10") else 3)
+        if self.count >= limit or (made >= cfg.n_designs and rng.random() < (0.6 if sim.prop == "C04" else 0.85)):
             return None
         ident = "D%d" % self.count
         self.count += 1
@@ -143,6 +152,12 @@ class Designer(Client):
             if targets:
                 return {"op": "DESIGN", "id": ident, "kind": "trim-inplace", "k": targets[0].k,
                         "target": rng.choice(targets).id, "removals": rng.randint(1, 8), "ins": rng.random() < 0.7,
+                        "del": rng.random() < 0.7}
+        if sim.prop in ("C06", "C09", "C10") and rng.random() < 0.25:
+            targets = [d for _, d in sorted(sim.world.designs.items()) if d.k <= 3 and len(M.arcs(d.rows)) > 3]
+            if targets:
+                return {"op": "DESIGN", "id": ident, "kind": "trim-inplace", "k": targets[0].k,
+                        "target": rng.choice(targets).id, "removals": rng.randint(1, 4), "ins": rng.random() < 0.7,
                         "del": rng.random() < 0.7}
         pop = weighted(rng, cfg.populations)
         k = cfg.k
@@ -168,6 +183,8 @@ class Designer(Client):
         if pop == "filter":
             return {"op": "DESIGN", "id": ident, "kind": "filter", "k": k, "filter": G.random_filter(rng, k),
                     "threshold": weighted(rng, [(1, 3), (2, 4), (3, 1)])}
+        if pop == "cycle":
+            return {"op": "DESIGN", "id": ident, "kind": "rows", "k": k, "arcs": G.rows_to_arcs(G.cycle_rows(rng, k))}
         shape = {"rows": "any", "fast-rows": "fast", "closed-rows": "closed"}[pop]
         return {"op": "DESIGN", "id": ident, "kind": "rows", "k": k, "arcs": G.random_arcs(rng, k, shape)}
 
@@ -204,7 +221,11 @@ class Writer(Client):
         design = pick_design(rng, sim.world, (lambda d: d.generated) if generated_only else None)
         if design is None or not design.live:
             return None
-        if generated_only or rng.random() < 0.9:
+        hot = design.suspicious_starts() if design.generated else []
+        if hot and rng.random() < 0.6:
+            start = rng.choice(hot)          # a generated graph must not have such vertices: write right there
+            sim.stats.inc("probes", "c04:write-next-to-dangling-arc")
+        elif generated_only or rng.random() < 0.9:
             # every class of retained start vertex
             by_deg = {}
             for v in design.live:
@@ -254,6 +275,8 @@ class Synth(Client):
         n = rng.randint(lo, max(lo, cfg.strand_max))
         if sim.prop != "C08" and rng.random() < 0.15:
             n = rng.choice([k, k + 1, 2 * k, 2 * k + 1])
+        if cfg.ultra:
+            n = rng.randint(5000, 9000)
         if cfg.long_strands and rng.random() < 0.5:
             n = rng.choice([255, 256, 257, 400, 511, 512, 513, 600, 700])     # word / buffer boundaries, many-error reads
             sim.stats.inc("probes", "pool:long-strand")
@@ -344,6 +367,10 @@ class Sequencer(Client):
             faults = ["MULTI"]
         elif kind == "BURST":
             edits, faults = F.dense_edits(rng, w, k, rng.randint(2, 5), burst=True), ["BURST"]
+        elif kind == "ULTRA":
+            gap = k + 2 + rng.randint(0, 2)
+            edits = [F.make_edit(rng, w, p, "S") for p in range(k + 1, n - k, gap)]
+            faults = ["ULTRA"]
         elif kind == "MASSIVE":
             # tens of separated errors on one long read (the candidate product explodes; the heap guard must hold)
             m = rng.randint(30, 90) if n >= 300 else rng.randint(4, 8)
@@ -408,10 +435,11 @@ class Sequencer(Client):
             op["fast"] = rdesign.hist[3] == 0 and (mol.fast or rng.random() < 0.3)
             op["table"] = mol.table if rng.random() < 0.8 else None
         elif op["mode"] == "repair":
-            op["has_indel"] = rng.random() < 0.6
-            op["heap"] = rng.choice(sim.prof["heaps"])
-            if len(edits) <= 2 and kind in ("NONE", "SUB", "INS", "DEL", "FIRST", "LASTWIN", "TRUNC") \
-                    and rdesign is design and rstart == start and rng.random() < 0.12:
+            op["has_indel"] = rng.random() < 0.6 and kind != "ULTRA"
+            op["heap"] = rng.choice(sim.prof["heaps"]) if kind != "ULTRA" else 1000
+            if len(edits) <= (2 if k <= 2 else 1) and kind in ("NONE", "SUB", "INS", "DEL", "FIRST", "LASTWIN", "TRUNC") \
+                    and rdesign is design and rstart == start and rng.random() < 0.12 \
+                    and M.walk(rdesign.rows, rstart, w).is_walk:      # (the graph may have been screened in place since)
                 # an infinite heap limit is only given to reads with at most two errors on the writer's own graph and
                 # start vertex: with it the candidate product is unbounded by design (exponential in the detections)
                 op["heap"] = "inf"
@@ -461,6 +489,13 @@ class Reader(Client):
             if r.random() < 0.2:
                 new["ntype"] = r.choice(["int64", "int64", "int32", "int16", "uint8", "int8"])
             return new
+        if op.get("heap") == "inf":
+            # the read was planned earlier; the graph may have been screened in place since. An infinite heap limit is
+            # only kept when the original strand is still a walk of the graph as it is at delivery (at most two errors)
+            design = sim.world.designs.get(op["design"])
+            origin = op.get("origin")
+            if design is None or origin is None or not M.walk(design.rows, op["start"], origin).is_walk:
+                op = dict(op, heap=1000)
         return op
 
 
@@ -485,6 +520,9 @@ class Scanner(Client):
         if rng.random() < 0.25:
             # the formula clause on long strands (byte / word / power-of-4 boundaries); linear cost
             n = rng.choice([255, 256, 257, 1023, 1024, 1025, 2047, 2048, 4095, 4096, 4097]) + rng.choice([0, 0, 1, 7])
+            if rng.random() < 0.12:
+                n = rng.choice([65535, 65536, 76001, 100003, 131072])     # position sums beyond 2^31
+                ns = sorted(set(ns + [rng.choice([18, 20, 33])]))
             body = "".join(rng.choice(M.NT) for _ in range(n)) if rng.random() < 0.7 else \
                 "".join(rng.choice("TGCA"[i % 4] + "A") for i in range(n))
             self.sim.stats.inc("probes", "c07:long-strand-formula")
